@@ -15,14 +15,17 @@ RULE = ('Hypothesis draws a host tree (3-40 nodes: directories to depth 5, files
         'char/block devices, fifos, sockets, directories with up to 300 entries, names of 1..255 arbitrary bytes, full mode bits incl. setuid/setgid/sticky, uid/gid up to 2^32-2, mtimes 0..2^31-1, user.* xattrs of 0..3000 bytes) and one of %d filesystem configurations. '
         '`mke2fs -d` builds the image; an independent reader (e4ref) must find exactly the same names, types, rdev, sizes, content hashes, symlink targets, hard-link groups, permission bits, owners, whole-second mtimes and user xattrs, every block that lies fully inside a host hole must be unmapped in the image, '
         'e2fsck -fn must exit 0 and the independent checker must be clean; a second build from the same input must be byte-identical; `debugfs rdump` into a fresh directory (and `dump`/`cat` of sampled files) must return the same names, bytes, lengths, link targets, rwx bits and owners for regular files, directories and symlinks. '
-        'non-trivial = the tree has a hard-link group, a sparse file and a directory larger than one block; distinct by tree') % len(FS)
+        'one case in five adds a very sparse file whose data segment lies at a byte offset around 2^31/2^32/2^33 (digested block-sparsely on both sides; not extracted); non-trivial = the tree has a hard-link group, a sparse file and a directory larger than one block, or such a huge sparse file; distinct by tree') % len(FS)
 
 namebytes = st.one_of(st.text(alphabet='abcXYZ019._-+~ ', min_size=1, max_size=20).map(lambda s: s.encode()), st.binary(min_size=1, max_size=255), st.integers(1, 255).map(lambda n: b'L' * n), st.sampled_from([b'..a', b'...', b'.hidden', b'-dash', b'sp ace', b'\xff\xfe', b'\xc3\xa9t\xc3\xa9', b'tab\there', b'new\nline', b'star*', b'q?']))
 node = st.fixed_dictionaries(dict(kind=st.sampled_from(KINDS), parent=st.integers(0, 50), name=namebytes, size=st.integers(0, 300000), seed=st.integers(0, 1 << 30), mode=st.integers(0, 0o7777), uid=st.sampled_from([0, 0, 1000, 65534, 65536, 4000000000, 4294967294]),
                                  gid=st.sampled_from([0, 0, 100, 65535, 70000, 4294967294]), mtime=st.one_of(st.integers(0, 2147483647), st.sampled_from([0, 1, 2147483647, 1700000000, 1699999999])), xattrs=st.lists(st.tuples(st.text(alphabet='abcdefgh._0', min_size=1, max_size=40), st.integers(0, 3000)), max_size=3),
                                  hole=st.tuples(st.integers(0, 2), st.integers(0, 400000), st.integers(1, 30000))))
 def strategy(env):
-    return st.fixed_dictionaries(dict(fs=st.integers(0, len(FS) - 1), nodes=st.lists(node, min_size=8, max_size=40), clamp=st.booleans()))
+    return st.fixed_dictionaries(dict(fs=st.integers(0, len(FS) - 1), nodes=st.lists(node, min_size=8, max_size=40), clamp=st.booleans(),
+                                      huge=st.one_of(st.none(), st.none(), st.none(), st.none(), st.tuples(st.integers(0, len(HUGE_OFFS) - 1), st.integers(-5000, 5000), st.integers(1, 30000), st.integers(0, 3)))))
+# data segments next to and beyond 2^31 / 2^32 / 2^33 bytes: offsets that do not fit 32 bits
+HUGE_OFFS = [1 << 32, (1 << 32) + 4096, (1 << 32) - 4096, 1 << 31, (1 << 33) + 8192, 3 << 31, (1 << 32) + (1 << 20)]
 
 def envinit(widx):
     env = hyp.img_env(widx, variants=('asan',))
@@ -105,6 +108,24 @@ def build_tree(root, nodes, bs, big_xattr=False):
         except OSError: pass
     return made, flags
 
+def host_sparse_sha(full, size, bs):
+    """same digest as e4ref.Reader.sparse_sha, computed from the host file's SEEK_DATA segments; also the number of blocks touched by data"""
+    h = hashlib.sha256(); z = bytes(bs); fd = os.open(full, os.O_RDONLY); pos = 0; nblk = 0
+    try:
+        while pos < size:
+            try: dpos = os.lseek(fd, pos, os.SEEK_DATA)
+            except OSError: break
+            if dpos >= size: break
+            end = min(os.lseek(fd, dpos, os.SEEK_HOLE), size)
+            b0 = dpos // bs
+            while b0 * bs < end:
+                d = os.pread(fd, bs, b0 * bs); d = d + bytes(bs - len(d))
+                if d != z: h.update(struct.pack('<Q', b0)); h.update(d)
+                nblk += 1; b0 += 1
+            pos = b0 * bs
+    finally: os.close(fd)
+    return 'sparse:' + h.hexdigest(), nblk
+
 def host_digest(root, bs):
     """path -> record, from lstat/readlink/listxattr/SEEK_HOLE"""
     rb = root.encode(); out = {}; byino = {}
@@ -113,7 +134,11 @@ def host_digest(root, bs):
             full = dp + b'/' + n; rel = b'/' + full[len(rb) + 1:]; s = os.lstat(full)
             rec = dict(type=stat.S_IFMT(s.st_mode), mode=s.st_mode & 0o7777, uid=s.st_uid, gid=s.st_gid, nlink=s.st_nlink if not stat.S_ISDIR(s.st_mode) else None, mtime=int(s.st_mtime))
             if stat.S_ISREG(s.st_mode):
-                rec['size'] = s.st_size; h = hashlib.sha256()
+                rec['size'] = s.st_size; h = hashlib.sha256(); rec['alloc'] = s.st_blocks * 512
+                if s.st_size > e4ref.SPARSE_SHA_OVER:
+                    rec['sha'], rec['data_blocks'] = host_sparse_sha(full, s.st_size, bs)
+                    byino.setdefault((s.st_dev, s.st_ino), []).append(rel); out[rel] = rec
+                    continue
                 with open(full, 'rb') as f:
                     for chunk in iter(lambda: f.read(1 << 20), b''): h.update(chunk)
                 rec['sha'] = h.hexdigest()
@@ -150,6 +175,7 @@ def image_digest(img, bs):
         I = R.fs.read_inode(r['ino'])
         if r['type'] == 0o100000:
             rec['size'] = r['size']; rec['sha'] = r['sha']; rec['mapped'] = R.mapped_blocks(I); byino.setdefault(r['ino'], []).append(p)
+            rec['n_mapped'] = len(rec['mapped'])
         elif r['type'] == 0o120000: rec['target'] = r['target']; rec['size'] = r['size']
         elif r['type'] in (0o020000, 0o060000):
             v = r['rdev']
@@ -171,6 +197,8 @@ def compare(host, image, check_mtime, bigalloc_ratio=1):
         h = host[p]; i = image[p]
         for k in ('type', 'mode', 'uid', 'gid', 'nlink', 'size', 'sha', 'target', 'rdev', 'xattr', 'links') + (('mtime',) if check_mtime else ()):
             if h.get(k) != i.get(k): diffs.append('%r: %s host=%r image=%r' % (p[:60], k, h.get(k) if k != 'target' else (h.get(k) or b'')[:40], i.get(k) if k != 'target' else (i.get(k) or b'')[:40]))
+        if 'data_blocks' in h and i.get('n_mapped', 0) > (h['data_blocks'] + 2) * bigalloc_ratio:
+            diffs.append('%r: %d blocks mapped in the image for %d host blocks holding data' % (p[:60], i['n_mapped'], h['data_blocks']))
         if 'holes' in h and 'mapped' in i:
             # with bigalloc a cluster is allocated as a whole: a hole block is only required to be unmapped when its entire cluster lies in the hole
             bad = sorted(b for b in h['holes'] & i['mapped'] if all((b // bigalloc_ratio) * bigalloc_ratio + k in h['holes'] for k in range(bigalloc_ratio)))
@@ -184,9 +212,19 @@ def body(case, env):
     root = os.path.join(env['host'], 'tree')
     made, flags = build_tree(root, case['nodes'], bs, big_xattr='ea_inode' in ' '.join(fsd['opts']))
     for k in sorted(set(k for r, k in made)): classes.append('node:' + k)
+    huge = case.get('huge')
+    if huge:
+        # one very sparse file whose data lies at byte offsets >= 2 GiB (optionally with a head segment and a trailing hole)
+        oi, delta, ln, shape = huge; off = max(0, HUGE_OFFS[oi] + delta)
+        with open(os.path.join(root, 'huge-sparse'), 'wb') as f:
+            if shape & 1: f.write(content(ln, 1 + ln % 9000))
+            f.seek(off); f.write(content(off & 0xffff, ln))
+            if shape & 2: f.truncate(off + ln + 123457)
+        os.utime(os.path.join(root, 'huge-sparse'), (1000000000, 1000000000)); os.utime(root, (1000000000, 1000000000))
+        classes.append('huge-sparse-file')
     host = host_digest(root, bs)
     img = os.path.join(d, 'c18.img'); img2 = os.path.join(d, 'c18b.img')
-    total = sum(r.get('size', 0) for r in host.values() if r['type'] == 0o100000) if True else 0
+    total = sum(min(r.get('size', 0), r.get('alloc', 0) + 8192) for r in host.values() if r['type'] == 0o100000)
     nblocks = max(8192 if bs == 1024 else 4096, int((total * 2 + len(host) * 3000) / bs) + 4096)
     ratio = 4 if 'bigalloc' in fsd['name'] else 1
     if ratio > 1: nblocks = max(nblocks, 16384) * 2
@@ -226,6 +264,10 @@ def body(case, env):
         if p2.rc != 0 or vrun.sha256_file(img) != vrun.sha256_file(img2):
             return (dict(base, kind='not-reproducible', rc2=p2.rc, differing_blocks=tool.changed_blocks(img, img2, bs)[:10]), fp, True, None, classes)
         classes.append('reproducible-checked')
+    if huge and b'/huge-sparse' in host and host[b'/huge-sparse']['size'] > e4ref.SPARSE_SHA_OVER:
+        # debugfs dump writes holes out as zeros: extracting a multi-GiB sparse file would cost GiBs of disk per worker; the image-side comparison above is the check for this file
+        nontrivial = True
+        return (None, fp, nontrivial, dict(fs=fsd['name'], entries=len(host), kinds=sorted(set(k for r, k in made)) + ['huge-sparse'], clamp=case['clamp'], huge=dict(size=host[b'/huge-sparse']['size'], data_blocks=host[b'/huge-sparse'].get('data_blocks'))), classes + ['extraction-skipped(huge)'])
     # extraction
     out = os.path.join(env['host'], 'out'); shutil.rmtree(out, ignore_errors=True); os.makedirs(out)
     r = vrun.run([t.debugfs, '-R', 'rdump / %s' % out, img], merge=True, cpu=300)
